@@ -56,23 +56,27 @@ structure St where
   intervalInstr : Nat        -- `interval_instructions`
   sinceLast : Nat            -- `instructions_since_last_check`
   limit : Nat                -- `execution_limit` (ns)
+  maxInterval : Nat := 18446744073709551615
+                             -- `MAX_INTERVAL_INSTRUCTIONS` (1000 since aa1a96f; constant of the code)
   deriving Repr, DecidableEq
 
 /-- `ExecutionTimeout::new`; `rate` is the first-interval baseline constant (`10_000_000.0` with
 debug assertions, `100_000_000.0` without), `cap` the bound on the FIRST interval (`100.0` since
 0c1b674: `first_interval_instruction_count.min(100.0)`, so that the real instruction rate is
 measured early; every later interval is derived from the measured rate), `now` the clock reading
-taken by `new`. `Duration / 10` is the floor of the nanosecond count. The deadline is
+taken by `new`, `maxI` the cap on every later interval (`MAX_INTERVAL_INSTRUCTIONS`).
+`Duration / 10` is the floor of the nanosecond count. The deadline is
 `now + limit` (the code uses `checked_add` and falls back to a far-future deadline when the sum is
 not representable; for limits in the property's range it is). -/
-def new (F : TOps) (rate cap : UInt64) (limit now : Nat) : St :=
+def new (F : TOps) (rate cap : UInt64) (maxI limit now : Nat) : St :=
   let isec := secsF F (limit / 10)
   { lastCheck := now
     deadline := now + limit
     intervalSeconds := isec
     intervalInstr := asUsize F (fmin F (F.mul rate isec) cap)
     sinceLast := 0
-    limit := limit }
+    limit := limit
+    maxInterval := maxI }
 
 inductive Poll where
   | skip      -- counter below the interval: no clock read
@@ -80,13 +84,16 @@ inductive Poll where
   | timeout   -- clock read, deadline reached
   deriving DecidableEq, Repr
 
-/-- the recomputed `interval_instructions`, exactly as written in `check_for_timeout` -/
+/-- the recomputed `interval_instructions`, exactly as written in `check_for_timeout`:
+`((interval as f64 * adjustment) as usize).min(MAX_INTERVAL_INSTRUCTIONS)` — the cap (aa1a96f) keeps
+the interval short whatever rate the previous interval measured, so that expensive instructions after
+cheap ones cannot overshoot by more than `maxInterval` of them (F-C08-8) -/
 def nextInterval (F : TOps) (s : St) (now : Nat) : Nat :=
   let remaining := secsF F (s.deadline - now)
   let nextIntervalDuration := fmin F s.intervalSeconds remaining
   let elapsed := secsF F (now - s.lastCheck)
   let intervalAdjustment := F.div nextIntervalDuration elapsed
-  asUsize F (F.mul (F.ofNat s.intervalInstr) intervalAdjustment)
+  min (asUsize F (F.mul (F.ofNat s.intervalInstr) intervalAdjustment)) s.maxInterval
 
 /-- `check_for_timeout`; `now` is what `Instant::now()` would return — it is consulted only in the
 second and third branch. -/
